@@ -1003,7 +1003,8 @@ pub fn run(tier: &str) -> i32 {
     fold(&mut rep, "canonical", "13 minimal scenes (plain image: blank background; single objects 8x8/8x16 even/odd tile, flips, BG priority; BG maps; window; two objects; eleven objects)", r);
   }
 
-  let deadline = std::time::Duration::from_secs(if thorough { 270 } else { 18 });
+  // (measured on 16 idle cores: quick 2 s, thorough 50 s; the cap only bounds a heavily loaded machine)
+  let deadline = std::time::Duration::from_secs(if thorough { 900 } else { 240 });
   let t0 = std::time::Instant::now();
   for (k, s) in stages(thorough).into_iter().enumerate() {
     let n = s.n();
